@@ -491,7 +491,7 @@ class DefaultParser(Parser):
         try:
             pred = self._read_predicate(context)
         except UndefinedPredicateError as err:
-            if not self.opts['auto_preds']:
+            if not self.opts['auto_preds'] or not isinstance(self.predicates, Predicates):
                 raise
             coords = err.coords
         else:
@@ -638,7 +638,7 @@ class StandardParser(DefaultParser, primary=True):
         try:
             pred = self._read_predicate(context)
         except UndefinedPredicateError as err:
-            if not self.opts['auto_preds']:
+            if not self.opts['auto_preds'] or not isinstance(self.predicates, Predicates):
                 raise
             coords = err.coords
         else:
